@@ -7,9 +7,10 @@ import json
 import struct
 
 from checks import lib
+from checks import S3chunks as S3C
 
 PROPERTY = "C03"
-LEAN_MODULES = ["KafVerif.Props.C03"]
+LEAN_MODULES = ["KafVerif.Props.C03", S3C.LEAN_MODULE]
 OBLIGATIONS = [
     "KafVerif.C03.recordsFrom_run",
     "KafVerif.C03.fallback_run",
@@ -24,7 +25,7 @@ OBLIGATIONS = [
     "KafVerif.C03.read_run_after_loss_run",
     "KafVerif.C03.handouts_stable",
     "KafVerif.C03.shared_buffer_unstable",
-]
+] + S3C.OBLIGATIONS_C03          # lower seam: the real awsS3Client's Download* over chunked / cut GetObject bodies
 ASSUMPTIONS = [
     "S3 is the in-memory client (atomic whole-object put, read-after-write, clamped range reads); upload failures are C01/C05's subject and are not generated; "
     "object loss (a segment's index object deleted or corrupted, a segment object deleted) is generated only together with a restart (the data of a lost/orphaned "
@@ -47,7 +48,7 @@ LEVEL_NOTE = ("Trusted: Lean kernel; the hand-written model of log.go/buffer.go/
               "Cache coherence is an invariant of the model (C09 proves the cache itself); S3 is the in-memory client.")
 BUILDS = {"st": ("root", "./cmd/verif_c03", ["C03"]), "br": ("root", "./cmd/broker", ["C02", "C03"])}
 # C03 itself also fetches THROUGH THE PROXY (cmd/proxy fan-out + merge, harness and monitor of C27): "never another topic's data"
-BUILDS_C03 = dict(BUILDS, px=("root", "./cmd/proxy", ["C27"]))
+BUILDS_C03 = dict(BUILDS, px=("root", "./cmd/proxy", ["C27"]), s3c=S3C.ROOT_BUILD)
 DRIVER = "C03"
 
 
@@ -312,7 +313,8 @@ def holes_ops(ck, ncases):
         for _ in range(r.range(3, 5)):
             add_seg()
         for rnd in range(r.choice([1, 1, 2])):
-            cand = segs[1:-1] if len(segs) > 2 and r.chance(3, 4) else segs
+            x = r.below(8)     # mostly a MIDDLE segment; sometimes any; sometimes the LAST one (an orphan ABOVE the last valid segment)
+            cand = segs[1:-1] if len(segs) > 2 and x < 5 else (segs[-1:] if x == 7 else segs)
             gone = set()
             for _ in range(r.choice([1, 1, 1, 2])):
                 if not cand:
@@ -358,6 +360,100 @@ def holes_ops(ck, ncases):
     return ops
 
 
+def orphan_ops(ck, ncases):
+    """Half-uploaded flush / lost index of a committed segment, then a restart (seeded changes C02-r3-1 and C04-r3-1).
+    Two kinds of case alternate:
+    (tail)      2-4 committed segments; the index object of the LAST one or two is deleted / corrupted (= a flush whose segment
+                upload succeeded and whose index upload did not, or a crash between the two uploads) and the log restarts at the
+                base of the first lost segment or at an older store offset, while older valid segments exist.  RestoreFromS3 must
+                skip the orphans AND restart the offsets at the end of the last VALID segment: the appends after the restart (their
+                flush overwrites the orphan object, same key) must continue there.  Then a plain restart and more appends.
+    (committed) 1-3 segments, one of them with 3-5 batches whose index object is lost, and a restart at a store offset ABOVE
+                that segment's base (the segment holds committed offsets).  The unchanged code refuses the partition (`err`); the
+                reads that follow - every batch of that segment, limits below / at / above the distance from the segment start,
+                cached and uncached - are judged whenever the implementation's restore succeeded."""
+    ops = []
+    for c in range(ncases):
+        r = ck.rng.fork()
+        g = Gen(r.fork(), malformed=False)
+        tailcase = c % 2 == 0
+        iv = r.choice([1, 2, 100, 100])
+        start = r.choice([0, 0, 0, 7, 2 ** 33])
+        ops.append("new %d %d %d" % (iv, (c // 2) % 2, start))
+        st8 = {"nxt": start}
+        segs = []            # (base, last, [(first, last, bytes) per batch]) of every segment object ever written
+
+        def add_seg(nb):
+            lay = []
+            for _ in range(nb):
+                hx = g.batch_hex(0, False)
+                b = bytes.fromhex(hx)
+                lod = struct.unpack(">i", b[23:27])[0]
+                lay.append((st8["nxt"], st8["nxt"] + lod, len(b)))
+                st8["nxt"] += lod + 1
+                ops.append("append " + hx)
+            ops.append("flush")
+            segs.append((lay[0][0], st8["nxt"] - 1, lay))
+            return segs[-1]
+
+        def reads(which, deep):
+            sizes = sorted(set(ln for sg in segs for (_, _, ln) in sg[2]))
+            for (base, last, lay) in which:
+                dist = 0
+                for (a, z, ln) in lay:
+                    ms = [1, 61, ln, max(1, dist - 1), max(1, dist), dist + 1, dist + ln, 70, r.choice(sizes), 1 << 20]
+                    ms = sorted(set(ms)) if deep else sorted(set([r.choice(ms), r.choice([61, 70, 1 << 20])]))
+                    for o in sorted(set([a, z])):
+                        for m in ms:
+                            if deep and not r.chance(2, 3):
+                                continue
+                            ops.append("read %d %d" % (o, m))
+                    dist += ln
+                if not deep:
+                    ops.append("read %d %d" % (r.choice([base - 1, last + 1]), r.choice([61, 1 << 20])))
+            ops.append("read %d %d" % (st8["nxt"] - 1, 70))
+            ops.append("read %d 61" % st8["nxt"])
+
+        if tailcase:
+            n = r.range(2, 4)
+            for _ in range(n):
+                add_seg(r.range(1, 3))
+            k = n if r.chance(1, 10) else min(r.choice([1, 1, 1, 2]), n - 1)
+            lost = segs[n - k:]
+            for sg in lost:
+                ops.append("%s %d" % (r.choice(["delindex", "delindex", "delindex", "badindex"]), sg[0]))
+            marks = [start] + [sg[0] for sg in segs[:n - k + 1]]
+            st = marks[-1] if r.chance(2, 3) else r.choice(marks)
+            ops.append("restartat %d" % st)
+            st8["nxt"] = max(st, segs[n - k - 1][1] + 1) if k < n else st
+            if r.chance(1, 2):
+                reads(segs[-2:], False)
+            for _ in range(r.range(1, 2)):        # the first flush overwrites the (first) orphan object
+                add_seg(r.range(1, 2))
+            reads(segs[max(0, n - k - 1):], False)
+            ops.append("dropcache")
+            ops.append("restart")                  # may fail: an orphan that was not overwritten is now below the store offset
+            add_seg(1)
+            reads(segs[-3:], False)
+        else:
+            n = r.range(1, 3)
+            v = r.below(n)
+            for j in range(n):
+                add_seg(r.range(3, 5) if j == v else r.range(1, 2))
+            ops.append("%s %d" % ("badindex" if r.chance(1, 6) else "delindex", segs[v][0]))
+            above = [sg[0] for sg in segs[v + 1:]] + [st8["nxt"]]
+            if r.chance(1, 2):
+                ops.append("restart")
+            else:
+                ops.append("restartat %d" % r.choice(above))
+            reads([segs[v]], True)
+            ops.append("dropcache")
+            reads([segs[v]] + [sg for j, sg in enumerate(segs) if j != v][:1], True)
+            add_seg(1)
+            reads([segs[v]], False)
+    return ops
+
+
 # ----------------------------------------------------------------------------- reference log + monitors
 def split_line(line):
     """'<result> | <dump>' -> (result words, dump dict)"""
@@ -383,9 +479,12 @@ class Ref:
         self.noidx = set()     # bases of S3 segment objects whose index object is lost / corrupt
         self.dirty = False     # a segment object of the running log was deleted: reads are judged again after the restart
         self.hw = start        # the published watermark as last reported (store offset of a plain `restart`)
+        self.floor = start     # the store offset of the last restart: a restored log never continues below it
 
     def end(self):
-        return self.batches[-1]["last"] + 1 if self.batches else self.start
+        """where the next acknowledged batch must start: one past the last retained batch, or the store offset of the last
+        restart when that is larger (everything above the retained log was lost with its objects)"""
+        return max(self.batches[-1]["last"] + 1 if self.batches else self.start, self.floor)
 
     def holder(self, o):
         """index of the batch holding o, or of the first batch after o; None if o is past the end"""
@@ -524,9 +623,15 @@ def _monitor(ops, out, which):
             ref.batches = [b for b in ref.batches if b["durable"] and not b.get("gone")
                            and not (b.get("seg") in ref.noidx and b["seg"] >= st)]
             ref.dirty = False
+            ref.floor = max(ref.start, st)
             if which == "C02" and int(d["n"]) != ref.end():
-                yield i, "restart-next-offset", ("after restart nextOffset is %s, the durable log ends at %d"
-                                                  % (d["n"], ref.end() - 1))
+                yield i, "restart-next-offset", ("after the restart at store offset %d nextOffset is %s; the last segment that survived the "
+                                                  "restore ends at %d, so the next batch must get offset %d"
+                                                  % (st, d["n"], ref.batches[-1]["last"] if ref.batches else -1, ref.end()))
+            want_last = ref.batches[-1]["last"] if ref.batches else -1
+            if which == "C02" and len(res) > 1 and int(res[1]) != want_last:
+                yield i, "restart-last-offset", ("RestoreFromS3 reported last offset %s (what the broker writes to the metadata store); the last "
+                                                  "segment that survived the restore ends at %d" % (res[1], want_last))
             ref.hw = int(d.get("hw", ref.hw))
             continue
         if f[0] == "read2" and res[0] == "read2" and len(res) >= 3 and not ref.dirty:
@@ -1015,10 +1120,19 @@ def run(ck):
         ck.broke("correspondence harness build px (cmd/proxy, overlay C27)", log)
     else:
         run_proxy_stream(ck, px, proxy_fetch_ops(ck, 40 if ck.quick() else 400))
+    # lower seam: the real awsS3Client (DownloadSegment / DownloadIndex) and PartitionLog.Read over it, on a fake of the S3 API
+    # whose GetObject bodies arrive in several Reads / are cut mid-transfer / over-announce Content-Length (checks/S3chunks.py)
+    ck.assumptions.append(S3C.ASSUMPTION)
+    s3c, log = ck.go_build(*BUILDS_C03["s3c"], name="h_s3c")
+    if s3c is None:
+        ck.broke("correspondence harness build s3c (cmd/verif_c03s3, overlay C03s3)", log)
+    else:
+        S3C.run_root(ck, s3c, "C03")
     ok = run_streams(ck, bins, "C03", DRIVER, [
         ("histories", "st", storage_ops(ck, ncases, nops)),
         ("xpartition", "st", xpart_ops(ck, 8 if ck.quick() else 80)),
         ("holes", "st", holes_ops(ck, 7 if ck.quick() else 60)),
+        ("orphans", "st", orphan_ops(ck, 6 if ck.quick() else 60)),
         ("broker", "br", broker_ops(ck, 6 if ck.quick() else 60, 60)),
         # prefetch goroutines on (cache contents and therefore the path are scheduling dependent): monitor only
         ("prefetch", "st", prefetch_ops(ck, 6 if ck.quick() else 60, 60), False),
@@ -1036,5 +1150,12 @@ def replay(ck, path):
             return
         run_proxy_stream(ck, px, rep["ops"])
         ck.cov["distinct_nontrivial"] = max(ck.cov["distinct_nontrivial"], 2)
+        return
+    if rep.get("harness") == "s3c":
+        s3c, log = ck.go_build(*BUILDS_C03["s3c"], name="h_s3c")
+        if s3c is None:
+            ck.broke("correspondence harness build s3c (cmd/verif_c03s3, overlay C03s3)", log)
+            return
+        S3C.replay_root(ck, s3c, rep, "C03")
         return
     replay_generic(ck, path, "C03")
